@@ -13,6 +13,7 @@ pub struct LruWorld;
 
 const K_INSERT: u8 = 0;
 const K_GET: u8 = 1;
+const K_BULK_INSERT: u8 = 2;
 
 fn hash_of(mode: i64, hseed: u64, k: u64) -> u64 {
     match mode {
@@ -44,11 +45,13 @@ impl World for LruWorld {
         let mut c = Rng::stream(run_seed, "config");
         let mut o = Rng::stream(run_seed, "ops");
         let mut p = Rng::stream(run_seed, "placement");
-        cfg.insert("cap_pow".into(), c.below(6) as i64);
+        // one run in 400: the shipped initial size (2^16) filled far enough to grow several times
+        let huge = c.below(if thorough { 100 } else { 400 }) == 0;
+        cfg.insert("cap_pow".into(), if huge { 16 } else { c.below(6) as i64 });
         cfg.insert("hmode".into(), c.below(6) as i64);
         cfg.insert("hseed".into(), (c.next() >> 1) as i64);
         let small = c.bool();
-        let nkeys = 1 + c.below(if small { 6 } else { 40 }) as i64;
+        let nkeys = if huge { *c.pick(&[150_000i64, 400_000, 1_200_000, 1_600_000, 2_000_000]) } else { 1 + c.below(if small { 6 } else { 40 }) as i64 };
         cfg.insert("nkeys".into(), nkeys);
         cfg.insert("place_off".into(), (p.below(4096) * 16) as i64);
         let mut rates = [0u16; NUM_SITES];
@@ -56,13 +59,17 @@ impl World for LruWorld {
             rates[rsdd::verif::Site::LruGrowNow as usize] = *c.pick(&[4u16, 32, 128]);
         }
         let ncallers = 1 + c.below(3);
-        let len = 1 + o.below(if thorough { 300 } else { 120 });
+        let len = if huge { 400 } else { 1 + o.below(if thorough { 300 } else { 120 }) };
         let mut ops = Vec::new();
+        if huge {
+            cfg.insert("hmode".into(), *c.pick(&[0i64, 5]));
+            ops.push(Op { c: 0, k: K_BULK_INSERT, a: [0, nkeys, 0, 0] });
+        }
         for _ in 0..len {
             ops.push(Op {
                 c: o.below(ncallers) as u8,
                 k: if o.below(100) < 55 { K_INSERT } else { K_GET },
-                a: [o.below(nkeys as u64) as i64, 0, 0, 0],
+                a: [o.below((nkeys as u64).min(1 << 21)) as i64, 0, 0, 0],
             });
         }
         Plan {
@@ -80,14 +87,26 @@ impl World for LruWorld {
         let mode = plan.get("hmode");
         let hseed = plan.get("hseed") as u64;
         let nkeys = plan.get("nkeys").max(1) as u64;
-        let mut lru: Lru<u64, u64> = Lru::new(plan.get("cap_pow").clamp(0, 8) as usize);
+        let mut lru: Lru<u64, u64> = Lru::new(plan.get("cap_pow").clamp(0, 16) as usize);
         let mut last: BTreeMap<u64, u64> = BTreeMap::new();
         let mut next_val: u64 = 1000; // every written value is unique => every read is attributable
         let mut hits = 0u64;
         for (i, op) in plan.ops.iter().enumerate() {
             ctx.step = i;
             ctx.ops += 1;
-            let k = (op.a[0] as u64) % nkeys;
+            if op.k == K_BULK_INSERT {
+                for k in (op.a[0].max(0) as u64)..(op.a[0].max(0) as u64 + op.a[1].max(0) as u64) {
+                    let k = k % nkeys;
+                    next_val += 1;
+                    lru.insert(k, next_val, hash_of(mode, hseed, k));
+                    last.insert(k, next_val);
+                }
+                ctx.ev(22, &[op.a[1] as u64]);
+                continue;
+            }
+            // after a bulk fill the callers work on a few dozen hot keys spread over the whole key range,
+            // so that overwrite-then-read of one key actually happens
+            let k = if nkeys > 100_000 { crate::rng::mix((op.a[0] as u64) % 48, hseed) % nkeys } else { (op.a[0] as u64) % nkeys };
             let h = hash_of(mode, hseed, k);
             match op.k {
                 K_INSERT => {
@@ -129,6 +148,7 @@ impl World for LruWorld {
     fn render_op(&self, op: &Op) -> String {
         match op.k {
             K_INSERT => format!("c{}: insert(key#{}, fresh value)", op.c, op.a[0]),
+            K_BULK_INSERT => format!("c{}: insert keys {}..{} with fresh values", op.c, op.a[0], op.a[0] + op.a[1]),
             _ => format!("c{}: get(key#{})", op.c, op.a[0]),
         }
     }
